@@ -24,6 +24,7 @@ class Owner(models.Model):
     rank = models.IntegerField(default=0)
     org = models.ForeignKey(Org, null=True, on_delete=models.SET_NULL, related_name="owners")
     region = models.ForeignKey(Region, null=True, on_delete=models.SET_NULL, related_name="direct_owners")
+    home = models.ForeignKey(Org, null=True, on_delete=models.SET_NULL, related_name="residents")
 
     class Meta:
         app_label = "djapp"
@@ -56,6 +57,7 @@ class Item(models.Model):
     k = models.IntegerField(default=0)
     g1 = models.UUIDField(null=True)
     owner = models.ForeignKey(Owner, null=True, on_delete=models.SET_NULL, related_name="items")
+    home = models.ForeignKey(Region, null=True, on_delete=models.SET_NULL, related_name="stored_items")
     tags = models.ManyToManyField(Tag, related_name="items")
 
     objects = models.Manager()
